@@ -156,6 +156,47 @@ func busySenderScenario(kind string, buf uint) func() {
 	}
 }
 
+// downNodeBackoffScenario: node 2 is down for good. A first call (one reply suffices) has returned; node 2's
+// sender still holds that call's request and sleeps in the back-off of its failed reconnect attempt. A second
+// call is issued: node 1 answers, which satisfies its quorum function - the call must return without any timer
+// expiring. (The same hand-over as in busySenderScenario, with the sender asleep instead of blocked in a write.)
+func downNodeBackoffScenario(kind string) func() {
+	return func() {
+		w := world.New(world.Opts{N: 2})
+		if w.Cfg == nil {
+			return
+		}
+		w.Handle = func(h *world.HCtx) world.Reply { return world.Reply{} }
+		w.FW.Crash(world.Addr(2))
+		mc.Quiesce()
+		mk := func() *world.Call {
+			c := w.NewCall(kind)
+			c.Ctx = context.Background()
+			c.Verdict = func(inv *world.QFInv) { inv.Quorum = len(inv.Keys) >= 1 }
+			return c
+		}
+		a := mk()
+		w.Start(a)
+		mc.Quiesce()
+		b := mk()
+		w.Start(b)
+		mc.Quiesce()
+		name := fmt.Sprintf("qc/%s/node-2-down-sender-in-back-off", kind)
+		for i, c := range []*world.Call{a, b} {
+			done := c.Returned
+			if world.IsAsync(kind) {
+				done = c.Returned && c.Fut.Done()
+			}
+			if w.Entered(1, c.Tok) == 1 && !done {
+				fail("C02/return-iff", classOf(kind)+"/sender-in-back-off", "%s: node 1 has answered call %d and one reply satisfies the quorum function, but the call has not returned: it is still handing its request to node 2, which is down and whose sender sleeps in its reconnect back-off (%d timers armed, none fired)", name, i+1, mc.PendingTimers())
+				mc.Outcome("waiting")
+				return
+			}
+		}
+		mc.Outcome("returned")
+	}
+}
+
 // afterOneWayResetScenario: the history before the quorum call is a one-way message written to node 2 and a
 // reset of node 2's stream (the node stays up and the stream is re-created). Both nodes then answer the quorum
 // call, which must return success: what the one-way message left behind must not keep it from returning.
@@ -613,6 +654,7 @@ func init() {
 				for _, buf := range []uint{0, 1} {
 					out = append(out, Instance{Name: fmt.Sprintf("qc/%s/busy-sender-on-node-2/buf=%d", kind, buf), Bound: 1, Root: busySenderScenario(kind, buf)})
 				}
+				out = append(out, Instance{Name: fmt.Sprintf("qc/%s/node-2-down-sender-in-back-off", kind), Bound: 1, Root: downNodeBackoffScenario(kind)})
 			}
 			for _, kind := range []string{"QuorumCall", "QuorumCallAsync"} {
 				for _, ow := range []string{"Unicast", "Multicast"} {
